@@ -1021,13 +1021,13 @@ func (in *Exec) rangeIter(x value, t types.Type) iter {
 
 func (in *Exec) chanSend(c *Chan, v value) {
 	if c == nil {
-		panic(pathAbort{abInconclusive, "deadlock: send on nil channel" + in.where()})
+		panic(pathAbort{abBlocked, "send on nil channel blocks forever" + in.where()})
 	}
 	if c.closed {
 		in.panicRuntime("send on closed channel")
 	}
 	if c.cap > 0 && len(c.buf) >= c.cap {
-		panic(pathAbort{abInconclusive, "goroutine would block on channel send (single-schedule model)" + in.where()})
+		panic(pathAbort{abBlocked, "goroutine would block on channel send (single-schedule model)" + in.where()})
 	}
 	// unbuffered channels: treated as a rendezvous queue drained by a later receive (single schedule)
 	c.buf = append(c.buf, copyVal(v))
@@ -1035,7 +1035,7 @@ func (in *Exec) chanSend(c *Chan, v value) {
 
 func (in *Exec) chanRecv(c *Chan, elem types.Type) (value, bool) {
 	if c == nil {
-		panic(pathAbort{abInconclusive, "deadlock: receive from nil channel" + in.where()})
+		panic(pathAbort{abBlocked, "receive from nil channel blocks forever" + in.where()})
 	}
 	if len(c.buf) > 0 {
 		v := c.buf[0]
@@ -1045,7 +1045,7 @@ func (in *Exec) chanRecv(c *Chan, elem types.Type) (value, bool) {
 	if c.closed {
 		return in.zero(elem), false
 	}
-	panic(pathAbort{abInconclusive, "goroutine would block on channel receive (single-schedule model)" + in.where()})
+	panic(pathAbort{abBlocked, "goroutine would block on channel receive (single-schedule model)" + in.where()})
 }
 
 func (in *Exec) selectOp(fr *frame, instr *ssa.Select) value {
@@ -1070,7 +1070,7 @@ func (in *Exec) selectOp(fr *frame, instr *ssa.Select) value {
 	if len(ready) > 0 {
 		chosen = ready[in.choice(len(ready))]
 	} else if instr.Blocking {
-		panic(pathAbort{abInconclusive, "select would block forever (single-schedule model)" + in.where()})
+		panic(pathAbort{abBlocked, "select would block (single-schedule model)" + in.where()})
 	}
 	r := tuple{in.intConst(int64(chosen)), tb.False}
 	recvOk := false
